@@ -216,7 +216,7 @@ static void do_release(S_t *s, int sid)
 		for (unsigned i = 0; i < nret; i++) if (ret[i] == ledger[h].p) isret = 1;
 		if (isret) nret_live++; else nother++;
 	}
-	printf("@ok st=%s returned=%u other=%u\n", stname(st), nret_live, nother);
+	printf("\n@ok st=%s returned=%u other=%u\n", stname(st), nret_live, nother);
 	/* the application now frees what it owns */
 	for (unsigned i = 0; i < nret; i++) {
 		int h = ledger_find(ret[i]);
@@ -240,14 +240,14 @@ int main(void)
 		if (line[0] == '#' || line[0] == '\n') continue;
 		if (sscanf(line, "%31s", op) != 1) continue;
 		if (!strcmp(op, "case")) {
-			for (int i = 0; i < MAXS; i++) if (S[i].ses) { printf("@bad-op unreleased session %d\n", i); goto next; }
-			printf("@ok%s\n", canary_ok ? "" : " !canary-overwritten"); canary_ok = 1; goto next;
+			for (int i = 0; i < MAXS; i++) if (S[i].ses) { printf("\n@bad-op unreleased session %d\n", i); goto next; }
+			printf("\n@ok%s\n", canary_ok ? "" : " !canary-overwritten"); canary_ok = 1; goto next;
 		}
-		if (!strcmp(op, "align")) { unsigned a = 0; sscanf(line, "%*s %u", &a); g_align = a & 7; printf("@ok\n"); goto next; }
+		if (!strcmp(op, "align")) { unsigned a = 0; sscanf(line, "%*s %u", &a); g_align = a & 7; printf("\n@ok\n"); goto next; }
 		if (!strcmp(op, "nullses")) {	/* every entry point with a NULL session */
 			void *tab[4] = {0}; char buf[8] = {0}; UINT32 v = 0; of_ldpc_parameters_t p; memset(&p, 0, sizeof p);
 			p.nb_source_symbols = 2; p.nb_repair_symbols = 3; p.encoding_symbol_length = 4; p.N1 = 3; p.prng_seed = 1;
-			printf("@ok params=%s", stname(of_set_fec_parameters(NULL, (of_parameters_t *)&p)));
+			printf("\n@ok params=%s", stname(of_set_fec_parameters(NULL, (of_parameters_t *)&p)));
 			printf(" cb=%s", stname(of_set_callback_functions(NULL, src_cb, NULL, NULL)));
 			printf(" build=%s", stname(of_build_repair_symbol(NULL, tab, 2)));
 			printf(" recv=%s", stname(of_decode_with_new_symbol(NULL, buf, 0)));
@@ -258,24 +258,24 @@ int main(void)
 			printf(" ctrl=%s", stname(of_get_control_parameter(NULL, OF_CTRL_GET_MAX_K, &v, sizeof v)));
 			printf("\n"); goto next;
 		}
-		if (sscanf(line, "%*s %d", &sid) != 1 || sid < 0 || sid >= MAXS) { printf("@bad-op\n"); goto next; }
+		if (sscanf(line, "%*s %d", &sid) != 1 || sid < 0 || sid >= MAXS) { printf("\n@bad-op\n"); goto next; }
 		S_t *s = &S[sid];
 		if (!strcmp(op, "new")) {
 			int codec, role;
-			if (sscanf(line, "%*s %*d %d %d", &codec, &role) != 2 || s->ses) { printf("@bad-op\n"); goto next; }
+			if (sscanf(line, "%*s %*d %d %d", &codec, &role) != 2 || s->ses) { printf("\n@bad-op\n"); goto next; }
 			memset(s, 0, sizeof *s); s->codec = codec; s->role = role;
 			cur_sid = sid; of_status_t st = of_create_codec_instance(&s->ses, (of_codec_id_t)codec, (of_codec_type_t)role, 0); cur_sid = -1;
-			printf("@ok st=%s\n", stname(st));
+			printf("\n@ok st=%s\n", stname(st));
 			if (st != OF_STATUS_OK) s->ses = NULL;
 			goto next;
 		}
-		if (!s->ses) { printf("@bad-op no session\n"); goto next; }
+		if (!s->ses) { printf("\n@bad-op no session\n"); goto next; }
 		if (!strcmp(op, "params")) {
 			unsigned k, r, len, m, N1; long long seed;
-			if (sscanf(line, "%*s %*d %u %u %u %u %u %lld", &k, &r, &len, &m, &N1, &seed) != 6 || s->configured) { printf("@bad-op\n"); goto next; }
+			if (sscanf(line, "%*s %*d %u %u %u %u %u %lld", &k, &r, &len, &m, &N1, &seed) != 6 || s->configured) { printf("\n@bad-op\n"); goto next; }
 			s->k = k; s->r = r; s->len = len; s->m = m; s->N1 = N1; s->seed = seed; s->n = k + r;
 			cur_sid = sid; of_status_t st = set_params(s, s->ses); cur_sid = -1;
-			printf("@ok st=%s\n", stname(st));
+			printf("\n@ok st=%s\n", stname(st));
 			if (st == OF_STATUS_OK) {
 				s->configured = 1;
 				s->cbbuf = calloc(s->k + 1, sizeof(void *)); s->cbcount = calloc(s->k + 1, sizeof(unsigned));
@@ -288,7 +288,7 @@ int main(void)
 			s->cbpolicy = !strcmp(w1, "buf") ? 1 : !strcmp(w1, "null") ? 2 : !strcmp(w1, "mix") ? 3 : 0;
 			of_status_t st = OF_STATUS_OK;
 			if (s->cbpolicy) { cur_sid = sid; st = of_set_callback_functions(s->ses, src_cb, NULL, s); cur_sid = -1; }
-			printf("@ok st=%s\n", stname(st)); goto next;
+			printf("\n@ok st=%s\n", stname(st)); goto next;
 		}
 		if (!strcmp(op, "ctrl")) {
 			sscanf(line, "%*s %*d %63s", w1);
@@ -298,15 +298,15 @@ int main(void)
 			else if (!strcmp(w1, "maxn")) st = of_get_control_parameter(s->ses, OF_CTRL_GET_MAX_N, &v, sizeof v);
 			else { st = of_get_control_parameter(s->ses, OF_CRTL_LDPC_STAIRCASE_IS_LAST_SYMBOL_NULL, &bv, sizeof bv); v = bv ? 1 : 0; }
 			cur_sid = -1;
-			printf("@ok st=%s v=%u\n", stname(st), st == OF_STATUS_OK ? v : 0); goto next;
+			printf("\n@ok st=%s v=%u\n", stname(st), st == OF_STATUS_OK ? v : 0); goto next;
 		}
-		if (!s->configured) { printf("@bad-op unconfigured\n"); goto next; }
+		if (!s->configured) { printf("\n@bad-op unconfigured\n"); goto next; }
 		if (!strcmp(op, "payload")) {
 			/* reference codeword: a temporary encoder session of the same codec and parameters (an explicit
 			 * step of the script, so the model performs it too) */
 			unsigned seed = 0; int mode = 0;
 			sscanf(line, "%*s %*d %63s %u", w1, &seed); mode = strcmp(w1, "id") ? 1 : 0;
-			if (s->have_cw) { printf("@bad-op\n"); goto next; }
+			if (s->have_cw) { printf("\n@bad-op\n"); goto next; }
 			s->cw = calloc(s->n, sizeof(void *));
 			for (unsigned e = 0; e < s->n; e++) s->cw[e] = malloc(s->len ? s->len : 1);
 			for (unsigned e = 0; e < s->k; e++) fill_source(s, e, s->cw[e], mode, seed);
@@ -316,16 +316,16 @@ int main(void)
 			for (unsigned e = s->k; st == OF_STATUS_OK && e < s->n; e++) st = of_build_repair_symbol(enc, (void **)s->cw, e);
 			if (enc) of_release_codec_instance(enc);
 			s->have_cw = (st == OF_STATUS_OK);
-			printf("@ok st=%s\n", stname(st)); goto next;
+			printf("\n@ok st=%s\n", stname(st)); goto next;
 		}
 		if (!strcmp(op, "cwdump")) {
-			if (!s->have_cw) { printf("@bad-op\n"); goto next; }
-			printf("@ok cw=");
+			if (!s->have_cw) { printf("\n@bad-op\n"); goto next; }
+			printf("\n@ok cw=");
 			for (unsigned e = 0; e < s->n; e++) { if (e) printf(";"); hex(s->cw[e], s->len); }
 			printf("\n"); goto next;
 		}
 		if (!strcmp(op, "build")) {
-			if (sscanf(line, "%*s %*d %u %63s", &a, w1) != 2 || !s->have_cw) { printf("@bad-op\n"); goto next; }
+			if (sscanf(line, "%*s %*d %u %63s", &a, w1) != 2 || !s->have_cw) { printf("\n@bad-op\n"); goto next; }
 			if (!s->enc_tab) {
 				s->enc_tab = calloc(s->n + 1, sizeof(void *)); s->enc_src_copy = calloc(s->k + 1, sizeof(void *));
 				s->enc_slot_lib = calloc(s->n + 1, sizeof(int));
@@ -339,30 +339,30 @@ int main(void)
 				if (own) { s->enc_tab[a] = abuf(s->len); memset(s->enc_tab[a], 0x55, s->len); }
 			}
 			cur_sid = sid; of_status_t st = of_build_repair_symbol(s->ses, (void **)s->enc_tab, a); cur_sid = -1;
-			printf("@ok st=%s", stname(st));
+			printf("\n@ok st=%s", stname(st));
 			if (st == OF_STATUS_OK && a < s->n && s->enc_tab[a]) { printf(" sym="); hex(s->enc_tab[a], s->len);
 				printf(" prov=%s", s->enc_slot_lib[a] ? (ledger_find(s->enc_tab[a]) >= 0 ? "lib" : "unknown") : "app"); }
 			check_app_buffers(s); printf("\n"); goto next;
 		}
 		if (!strcmp(op, "recv") || !strcmp(op, "recvnull")) {
-			if (sscanf(line, "%*s %*d %u", &a) != 1 || !s->have_cw) { printf("@bad-op\n"); goto next; }
+			if (sscanf(line, "%*s %*d %u", &a) != 1 || !s->have_cw) { printf("\n@bad-op\n"); goto next; }
 			unsigned char *buf = NULL;
 			if (!strcmp(op, "recv")) {
 				unsigned e = a < s->n ? a : 0;
 				buf = abuf(s->len); memcpy(buf, s->cw[e], s->len);
 				if (a < s->n) { int j; for (j = 0; j < MAXSUB; j++) { if (!s->sub[j]) s->sub[j] = calloc(s->n, sizeof(void *)); if (!s->sub[j][a]) { s->sub[j][a] = buf; break; } }
-					if (j == MAXSUB) { afree(buf); printf("@bad-op too many duplicates\n"); goto next; } }
+					if (j == MAXSUB) { afree(buf); printf("\n@bad-op too many duplicates\n"); goto next; } }
 			}
 			nev = 0;
 			cur_sid = sid; of_status_t st = of_decode_with_new_symbol(s->ses, buf, a); cur_sid = -1;
-			printf("@ok st=%s", stname(st)); print_events(); check_app_buffers(s); printf("\n");
+			printf("\n@ok st=%s", stname(st)); print_events(); check_app_buffers(s); printf("\n");
 			if (a >= s->n) afree(buf);
 			goto next;
 		}
 		if (!strcmp(op, "avail")) {
 			/* list of esis: "avail S 0,3,4" or "avail S -" */
 			char *p = strchr(line, ' '); p = p ? strchr(p + 1, ' ') : NULL;
-			if (!s->have_cw || !p) { printf("@bad-op\n"); goto next; }
+			if (!s->have_cw || !p) { printf("\n@bad-op\n"); goto next; }
 			void **tab = calloc(s->n + 1, sizeof(void *));
 			if (!s->sub[0]) s->sub[0] = calloc(s->n, sizeof(void *));
 			for (p++; *p && *p != '\n' && *p != '-';) {
@@ -372,23 +372,23 @@ int main(void)
 			}
 			nev = 0;
 			cur_sid = sid; of_status_t st = of_set_available_symbols(s->ses, tab); cur_sid = -1;
-			printf("@ok st=%s", stname(st)); print_events(); check_app_buffers(s); printf("\n");
+			printf("\n@ok st=%s", stname(st)); print_events(); check_app_buffers(s); printf("\n");
 			free(tab); goto next;
 		}
-		if (!strcmp(op, "availnull")) { cur_sid = sid; of_status_t st = of_set_available_symbols(s->ses, NULL); cur_sid = -1; printf("@ok st=%s\n", stname(st)); goto next; }
+		if (!strcmp(op, "availnull")) { cur_sid = sid; of_status_t st = of_set_available_symbols(s->ses, NULL); cur_sid = -1; printf("\n@ok st=%s\n", stname(st)); goto next; }
 		if (!strcmp(op, "finish")) {
 			nev = 0;
 			cur_sid = sid; of_status_t st = of_finish_decoding(s->ses); cur_sid = -1;
-			printf("@ok st=%s", stname(st)); print_events(); check_app_buffers(s); printf("\n"); goto next;
+			printf("\n@ok st=%s", stname(st)); print_events(); check_app_buffers(s); printf("\n"); goto next;
 		}
 		if (!strcmp(op, "complete")) {
 			cur_sid = sid; int c = (int)of_is_decoding_complete(s->ses); cur_sid = -1;
-			printf("@ok c=%d\n", c ? 1 : 0); goto next;
+			printf("\n@ok c=%d\n", c ? 1 : 0); goto next;
 		}
 		if (!strcmp(op, "sources")) {
 			void **tab = calloc(s->k + 1, sizeof(void *));
 			cur_sid = sid; of_status_t st = of_get_source_symbols_tab(s->ses, tab); cur_sid = -1;
-			printf("@ok st=%s src=", stname(st));
+			printf("\n@ok st=%s src=", stname(st));
 			int first = 1;
 			if (st == OF_STATUS_OK) for (unsigned i = 0; i < s->k; i++) if (tab[i]) {
 				int w;
@@ -405,8 +405,8 @@ int main(void)
 		}
 		if (!strcmp(op, "matrix")) {
 			of_ldpc_staircase_cb_t *cb = (of_ldpc_staircase_cb_t *)s->ses;
-			if (s->codec != 3 || !cb->pchk_matrix) { printf("@bad-op\n"); goto next; }
-			printf("@ok rows=");
+			if (s->codec != 3 || !cb->pchk_matrix) { printf("\n@bad-op\n"); goto next; }
+			printf("\n@ok rows=");
 			for (unsigned row = 0; row < s->r; row++) {
 				unsigned tmp[4096]; unsigned cnt = 0;
 				for (of_mod2entry *e = of_mod2sparse_first_in_row(cb->pchk_matrix, row); !of_mod2sparse_at_end(e); e = of_mod2sparse_next_in_row(e))
@@ -417,7 +417,7 @@ int main(void)
 			}
 			printf("\n"); goto next;
 		}
-		printf("@bad-op\n");
+		printf("\n@bad-op\n");
 	next:
 		fflush(stdout);
 	}
